@@ -153,7 +153,7 @@ var decoderFuncs = map[string]bool{
 // successful load always delivers it (blocking send on every success path) after the content checks.
 func ruleFreshDecode(p *Program, r *Result, delivery bool) {
 	n := 0
-	for _, fn := range p.UFuncs() {
+	for _, fn := range p.UUnits() {
 		for _, c := range allCalls(fn) {
 			call, ok := c.(*ssa.Call)
 			if !ok {
@@ -230,7 +230,7 @@ func ruleFreshDecode(p *Program, r *Result, delivery bool) {
 			if !delivery {
 				allFresh := len(sent) > 0
 				for _, v := range sent {
-					if u, ok := v.(*ssa.UnOp); !(ok && u.Op == token.MUL && u.X == ssa.Value(a)) {
+					if !isCopyOfLocal(v, a, 4) {
 						allFresh = false
 					}
 				}
@@ -248,10 +248,7 @@ func ruleFreshDecode(p *Program, r *Result, delivery bool) {
 				continue
 			}
 			sd := sends[0]
-			isLocalVal := false
-			if u, ok := sd.X.(*ssa.UnOp); ok && u.Op == token.MUL && u.X == ssa.Value(a) {
-				isLocalVal = true
-			}
+			isLocalVal := isCopyOfLocal(sd.X, a, 4)
 			g, why := guardedBySuccess(call, sd, nil)
 			// every nil-error return passes the send
 			allPass := true
@@ -580,6 +577,17 @@ func addrRoot(v ssa.Value, depth int) (rootKind, ssa.Value, []string) {
 			if !isAlloc {
 				v = x.X
 				continue
+			}
+			// the cell of a parameter (spilled, or captured by a closure of this function): the value loaded
+			// is the parameter itself
+			if len(fieldsDown) == 0 {
+				if sts := allocStores(a); len(sts) == 1 {
+					if pr, isParam := sts[0].Val.(*ssa.Parameter); isParam {
+						path = path[:len(path)-1]
+						v = pr
+						continue
+					}
+				}
 			}
 			worst := rootLocal
 			var worstRoot ssa.Value = a
@@ -1324,4 +1332,26 @@ func stripSlices(v ssa.Value) ssa.Value {
 			return v
 		}
 	}
+}
+
+
+// isCopyOfLocal: v is the value of local a: a load of a, or a load of another local whose only store is such
+// a value (a struct handed on by value through a folded helper).
+func isCopyOfLocal(v ssa.Value, a *ssa.Alloc, depth int) bool {
+	if depth == 0 {
+		return false
+	}
+	u, ok := v.(*ssa.UnOp)
+	if !ok || u.Op != token.MUL {
+		return false
+	}
+	if u.X == ssa.Value(a) {
+		return true
+	}
+	b, ok := u.X.(*ssa.Alloc)
+	if !ok {
+		return false
+	}
+	st := allocStores(b)
+	return len(st) == 1 && isCopyOfLocal(st[0].Val, a, depth-1)
 }
